@@ -812,3 +812,38 @@ def _rvalue_with_tables(self, n):
 
 Frame._rvalue_plain = Frame.rvalue
 Frame.rvalue = _rvalue_with_tables
+
+
+def term_bits(t, atoms, width=64):
+    """exact bit vector of a sym term built from constants, & | ^ ~, shifts by
+    constants and integral casts over atom terms with known widths
+    (atoms: {term: (name, width, signed)})."""
+    if t in atoms:
+        name, w, sg = atoms[t]
+        return BV.sym(name, w, sg).convert(width, sg)
+    k = t[0]
+    if k == 'c':
+        return BV.const(t[1], width, t[1] < 0)
+    if k == 'cast':
+        ti = type_info(t[1])
+        v = term_bits(t[2], atoms, width)
+        if ti and len(ti) == 3:
+            return v.convert(ti[0], ti[1]).convert(width, ti[1])
+        return v
+    if k in ('&b', '|b', '^b'):
+        a, b = term_bits(t[1], atoms, width), term_bits(t[2], atoms, width)
+        f = {'&b': band, '|b': bor, '^b': bxor}[k]
+        return BV([f(x, y) for x, y in zip(a.bits, b.bits)], False)
+    if k in ('<<', '>>'):
+        a = term_bits(t[1], atoms, width)
+        if t[2][0] != 'c' or not (0 <= t[2][1] < width):
+            raise Unsupported('shift by non-constant')
+        c = t[2][1]
+        if k == '<<':
+            return BV([ZERO] * c + list(a.bits[:width - c]), a.signed)
+        fill = a.bits[-1] if a.signed else ZERO
+        return BV(list(a.bits[c:]) + [fill] * c, a.signed)
+    if k == '~':
+        a = term_bits(t[1], atoms, width)
+        return BV([bnot(x) for x in a.bits], a.signed)
+    raise Unsupported('term %r outside the bit domain' % (t[0],))
